@@ -215,19 +215,15 @@ theorem prologue_headMin (E : Env S) (fuel : Nat) (s' : St S)
   · cases h1
   · exact h1
 
-/-- **the minimal-cost theorem for the state after the prologue** (recursive flag set): for every
+/-- **the minimal-cost theorem for the state after the prologue** (a fixpoint: e.g. recursive flag set): for every
     initialised non-terminal, `_cost_lists[S][0]` is a lower bound of the cost of every program derivable
     from `S`, is finite as soon as such a program exists, and is then the cost of a derivable program -/
-theorem prologue_minCost (E : Env S) (hnd : RowsNodup E.G) (hrec : E.recursive = true) (fuel : Nat) (s' : St S)
+theorem prologue_minCost (E : Env S) (hnd : RowsNodup E.G) (hst : StableAfter E) (fuel : Nat) (s' : St S)
     (h : prologue E fuel (St.empty E.G) = some s') (nt : NT S Unit) (c : Cost) (rest : List Cost)
     (hc : s'.clOf nt = c :: rest) :
     (∀ t k, costOf E t nt = some k → c.inf = 0 ∧ c.fin ≤ k) ∧
     (c.inf = 0 → ∃ t, gen E.G t nt = true ∧ costOf E t nt = some c.fin) := by
-  have hst : Stable E s' := by
-    unfold prologue at h
-    split at h
-    · cases h
-    · exact reevaluate_stable E hrec fuel _ _ h
+  have hst : Stable E s' := hst fuel s' h
   exact minCost_spec E s' (prologue_minv E hnd fuel _ _ (minv_empty E) h) (prologue_headMin E fuel s' h).1
     (prologue_allRules E fuel s' h) hst nt c rest hc
 
